@@ -23,7 +23,7 @@ COMPONENTS = {"real": ["torchphysics PointsDataLoader/PointsDataset", "DeepONetD
 
 
 def budget(tier):
-    return {"cases": 6000 if tier == "quick" else 200000, "wall": 600 if tier == "quick" else 3300,
+    return {"cases": 6000 if tier == "quick" else 200000, "wall": 600 if tier == "quick" else 3000,
             "shrink": 60, "det_legs": 6}
 
 
